@@ -32,6 +32,9 @@
 #include "flexdef.h"
 #include "tables.h"
 
+/* True while ntod() creates the start states (see snstods()). */
+static bool making_start_states = false;
+
 /* declare functions that have forward references */
 
 static void dump_associated_rules(FILE *, int);
@@ -544,6 +547,8 @@ size_t ntod (void)
 		nset = epsclosure (nset, &numstates, accset, &nacc,
 				   &hashval);
 
+		making_start_states = true;
+
 		if (snstods (nset, numstates, accset, nacc, hashval, &ds)) {
 			numas += nacc;
 			totnst += numstates;
@@ -553,6 +558,8 @@ size_t ntod (void)
 				check_trailing_context (nset, numstates,
 							accset, nacc);
 		}
+
+		making_start_states = false;
 	}
 
 	if (!ctrl.fullspd) {
@@ -884,7 +891,14 @@ static int snstods(int sns[], int numstates, int accset[], int nacc, int hashval
 
 		dfaacc[newds].dfaacc_state = j;
 
-		if (j <= num_rules)
+		/* The accepting number of a start state stands for a match of
+		 * the empty string, which is used only when the scanner jams
+		 * before it reaches any other accepting state.  With the
+		 * default rule in place every character leads to one, so such
+		 * a match does not make the rule useful.
+		 */
+		if (j <= num_rules
+		    && !(making_start_states && !ctrl.spprdflt))
 			rule_useful[j] = true;
 	}
 
